@@ -24,8 +24,9 @@ reg('C17', engine='h_simplify',
     assumptions=['obstacle features are >= 4 resolution lengths thick, so an unvalidated motion through an obstacle shows '
                  'as an invalid run > 2 resolution lengths while a correctly validated one cannot (DESIGN 4/C01)',
                  'cost-field objective is affine in the position (trapezoid rule exact, objective independent of how a curve '
-                 'is cut into segments); clearance objective is decided up to 2 resolution lengths (it is evaluated on '
-                 'samples one resolution length apart of a 1-Lipschitz field), smaller deteriorations are counted only',
+                 'is cut into segments); clearance objective: minimum clearance along the curve evaluated by the oracle at 1/4 resolution; a '
+                 'deterioration is a verdict beyond 3 resolution lengths (each accepted modification is decided by the '
+                 'library on samples one resolution length apart of a 1-Lipschitz field), smaller ones are counted only',
                  'smoothBSpline is not run on the non-metric space (documented precondition); simplify() is not required '
                  'to shorten (it may repair), its length ratio is a statistic',
                  'the build does not enable -fsanitize=float-cast-overflow (not part of gcc -fsanitize=undefined): the '
